@@ -26,17 +26,6 @@ instance (s : Fetcher) : Decidable (Complete s) := by unfold Complete; infer_ins
 instance (good : Nat → Bool) (k : Nat) (es : List Ev) : Decidable (Fair good k es) := by
   unfold Fair; infer_instance
 
-theorem fair_finished {good : Nat → Bool} {k : Nat} {es : List Ev} (hfair : Fair good k es) :
-    Inv good k (announced es) (run (init k) es) ∧ (run (init k) es).running = false := by
-  obtain ⟨hs, hi⟩ := valid_inv es [] (init k) (struct_init k) (inv_init good k) hfair.1
-  simp only [List.nil_append] at hi
-  refine ⟨hi, ?_⟩
-  rcases hfair.2 with h | ⟨h1, h2, h3⟩
-  · exact h
-  · cases hr : (run (init k) es).running with
-    | false => rfl
-    | true => exact absurd h3 (hs.quiet hr h1 h2)
-
 /-- **C03, positive half.**  For every fair complete event sequence — any placement, any subset of
 bad / late shares, any schedule — if at least `k` distinct share numbers belong to good shares, the
 fetcher ends by calling `process_blocks` with blocks for at least `k` distinct share numbers
